@@ -1173,7 +1173,7 @@ func r6VectorMerge(c *RuleCtx) {
 		if st, ok := nt.Underlying().(*types.Struct); ok {
 			for i := 0; i < st.NumFields(); i++ {
 				if isFaissIndexPtr(st.Field(i).Type()) {
-					holder = fieldKey{"vecIndexInfo", st.Field(i).Name()}
+					holder = fieldKey{"vecIndexInfo", canonFieldName("vecIndexInfo", st, i)}
 				}
 			}
 		}
@@ -1246,7 +1246,33 @@ func r6VectorMerge(c *RuleCtx) {
 				}
 			}
 			if cs, ok := in.(ssa.CallInstruction); ok {
-				if f := staticCallee(cs); f != nil && freeFns[f] {
+				f := resolvedCallee(cs)
+				frees := f != nil && freeFns[f]
+				if f != nil && !frees && f.Parent() != nil && rootParent(f) == rootParent(fn) {
+					// a local closure that runs the free routine on every path (`abort`)
+					var freeAt []*ssa.BasicBlock
+					for _, cs2 := range callSites(f) {
+						if g := staticCallee(cs2); g != nil && freeFns[g] {
+							if _, isDefer := cs2.(*ssa.Defer); !isDefer {
+								freeAt = append(freeAt, cs2.Block())
+							}
+						}
+					}
+					rets := returnsOf(f)
+					frees = len(rets) > 0 && len(freeAt) > 0
+					for _, ret := range rets {
+						dom := false
+						for _, b := range freeAt {
+							if b == ret.Block() || b.Dominates(ret.Block()) {
+								dom = true
+							}
+						}
+						if !dom {
+							frees = false
+						}
+					}
+				}
+				if frees {
 					if ev&evFreed != 0 && ev&evStored != 0 {
 						return []uint64{ev | evDouble}
 					}
